@@ -28,7 +28,15 @@ static void run(Out& out, int mode, std::istringstream& is, size_t nops) {
             SV& v = *s[i];
             std::vector<long long> seq;
             for (size_t j = 0; j < v.size(); ++j) seq.push_back(tracked || init[i][j] ? rd<T>(v[j]) : UNINIT);
-            obs += std::string(i > 1 ? "," : "") + "{\"size\":" + std::to_string(v.size()) + ",\"seq\":" + jarr(seq) + "}";
+            // the same contents through the other accessors: const iterators, at(), data(), front() / back()
+            const SV& cv = v;
+            std::vector<long long> seq2; size_t j2 = 0;
+            for (auto it = cv.begin(); it != cv.end(); ++it, ++j2) seq2.push_back(tracked || init[i][j2] ? rd<T>(*it) : UNINIT);
+            std::vector<long long> seq3;
+            for (size_t j = 0; j < v.size(); ++j) seq3.push_back(!(tracked || init[i][j]) ? UNINIT : j % 3 == 0 ? rd<T>(cv.at(j)) : j % 3 == 1 ? rd<T>(v.data()[j]) : rd<T>(*(cv.cbegin() + j)));
+            if (v.size() && (tracked || init[i][0])) seq3[0] = rd<T>(cv.front());
+            if (v.size() && (tracked || init[i][v.size() - 1])) seq3[v.size() - 1] = rd<T>(v.back());
+            obs += std::string(i > 1 ? "," : "") + "{\"size\":" + std::to_string(v.size()) + ",\"seq\":" + jarr(seq) + ",\"seq_it\":" + jarr(seq2) + ",\"seq_acc\":" + jarr(seq3) + "}";
         }
         obs += "]";
         ev.raw("obs", obs);
@@ -55,7 +63,7 @@ static void run(Out& out, int mode, std::istringstream& is, size_t nops) {
     }
     s[1].reset(); s[2].reset();
     Ev ev("reset"); ev.num("r", 0).num("a", 0).num("b", 0).num("mode", mode).num("dflt", tracked ? 0 : UNINIT);
-    ev.raw("obs", "[{\"size\":0,\"seq\":[]},{\"size\":0,\"seq\":[]}]");
+    ev.raw("obs", "[{\"size\":0,\"seq\":[],\"seq_it\":[],\"seq_acc\":[]},{\"size\":0,\"seq\":[],\"seq_it\":[],\"seq_acc\":[]}]");
     if (tracked) ev.arr("live", ledger().live_values());
     ev.num("lerr", ledger().nerr);
     ev.emit(out);
